@@ -113,7 +113,7 @@ def main(tier):
     thorough = tier == "thorough"
     root = lib.fresh_dir("c20")
     stats = dict(section_comparisons=0, per_file_comparisons=0, subsets=0, race_runs=0, mcp_hook_comparisons=0, projects=0)
-    only = os.environ.get("VERIF_C20_ONLY", "")      # development aid: "mcp" runs only the MCP section
+    only = os.environ.get("VERIF_C20_ONLY", "")      # development aid: "mcp" runs only the MCP section, "race" only the -race section
     nproj = 3 if thorough else 1
     for pi in range(0 if only else nproj):
         d, files = make_project(root, "p%d" % pi, rng, n_mods=4 if thorough else 3)
@@ -221,12 +221,12 @@ def main(tier):
     # ---------- (d') all seven MCP tools on the real server binary vs the command line (harness/c20mcp.py) ----------
     if only:
         files = []
-    if ck.go_ok:
+    if ck.go_ok and only != "race":
         stats.update(c20mcp.run(ck, root, thorough))
     # ---------- (c) data races: -race build of the real binary ----------
     race_bin = os.path.join(lib.BIN, "pyscn-race")
     rc, err = 1, "skipped (VERIF_C20_ONLY)"
-    if not only:
+    if only in ("", "race"):
         with lib.Lock("race"):
             rc, out, err = lib.run(["go", "build", "-race", "-o", race_bin, "./cmd/pyscn"], cwd=lib.REPO, env=lib.GOENV, timeout=900)
     if rc != 0:
